@@ -647,7 +647,18 @@ def run(tier, seed, log):
     jobs = 8
     per = max(100, min(2500, -(-len(cases) // jobs)))
     batches = [cases[i:i + per] for i in range(0, len(cases), per)]
+    # conformance with the intended design (Forward.tla) runs beside the judge: DRIFT, informational
+    import threading
+    box = {}
+    th = threading.Thread(target=lambda: box.update(d=design_drift(cases, log, 1200 if tier == "quick" else 20000)))
+    th.start()
+    th2 = threading.Thread(target=lambda: box.update(mc=design_model_check(tier, log)))
+    th2.start()
     j = tlc.judge_batches("SchedTrace", {}, batches, "sch", jobs=jobs)
+    th.join()
+    th2.join()
+    if box.get("mc", {}).get("error"):
+        raise tlc.TlcError("MC_Forward: the intended design violates %s" % box["mc"]["error"])
     byid = {c["id"]: c for c in cases}
     fails = []
     seen = set()
@@ -661,6 +672,7 @@ def run(tier, seed, log):
                       "kind": c["I"]["dir"], "tags": tags_of(c, clause, detail),
                       "case": {"id": cid, "I": c["I"]},
                       "text": "%s calc, %d tasks, detail=%s" % (c["I"]["dir"], len(c["I"]["tasks"]), detail)})
+    drift = box.get("d", {"replayed": 0})
     nontriv = sum(1 for c in cases if len(c["I"]["tasks"]) >= 2 and
                   (classify(c)[0] == "links" or classify(c)[1] == "shared"))
     outs = {}
@@ -670,11 +682,92 @@ def run(tier, seed, log):
            "rows": sum(len(c["R"]["rows"]) for c in cases),
            "fwd": sum(1 for c in cases if c["I"]["dir"] == "fwd"),
            "bwd": sum(1 for c in cases if c["I"]["dir"] == "bwd"),
-           "samples": [{"I": c["I"], "R": c["R"]} for c in cases[200:202]]}
+           "samples": [{"I": c["I"], "R": c["R"]} for c in cases[200:202]], "drift": drift, "mc": box.get("mc")}
     log("sched: judged %d executions, %d failing (case, clause) pairs (%.0fs)" % (j["judged"], len(fails),
                                                                                 time.time() - t0))
     return {"engine": "sched", "tier": tier, "seed": seed, "wall_s": time.time() - t0, "fails": fails,
             "coverage": cov}
+
+
+def design_model_check(tier, log):
+    """TLC model-checks the intended forward design (MC_Forward): termination, determinism, every forward
+    clause of Sched.tla on every terminal state, over a bounded family of inputs"""
+    NOI = [0, 0]
+    if tier == "quick":
+        lits = {"N": 2, "MAXLINKS": 1, "DEAD": False, "HORIZON": 30, "FREERES": True}
+        defs = {"ESTS": [NOI, [2, 1], [10, 1]], "DEFESTS": [[2, 1]]}
+    else:
+        lits = {"N": 3, "MAXLINKS": 2, "DEAD": False, "HORIZON": 30, "FREERES": False}
+        defs = {"ESTS": [NOI, [0, 1], [10, 1]], "DEFESTS": [[0, 1]]}
+    defs = {k: set(tuple(x) for x in v) for k, v in defs.items()}
+    r = tlc.run_model("MC_Forward", lits, {k: _SetOfTuples(v) for k, v in defs.items()}, "mcfwd",
+                      invariants=["OkMeansClauses", "OkMeansSchedulable", "FailHasReason", "Dated"],
+                      properties=["Terminates"], workers=8, timeout=3000, heap="4g")
+    if not r["ok"]:
+        return {"error": "%s\n%s" % (tlc.violated(r["out"]), r["out"][-1500:])}
+    log("MC_Forward N=%d: %d states, %d transitions: terminates, deterministic, all forward clauses hold (%.0fs)"
+        % (lits["N"], r["stats"]["distinct"], r["stats"]["generated"], r["wall"]))
+    dead = tlc.run_model("MC_Forward", dict(lits, DEAD=True, N=2, MAXLINKS=1, FREERES=True),
+                         {k: _SetOfTuples(v) for k, v in defs.items()}, "mcfwd",
+                         invariants=["OkMeansClauses", "OkMeansSchedulable", "FailHasReason", "Dated"],
+                         properties=["Terminates"], workers=8, timeout=3000, heap="4g") if tier != "quick" else None
+    if dead is not None and not dead["ok"]:
+        return {"error": "DEAD: %s\n%s" % (tlc.violated(dead["out"]), dead["out"][-1500:])}
+    return {"states": r["stats"]["distinct"], "transitions": r["stats"]["generated"], "n": lits["N"]}
+
+
+class _SetOfTuples:
+    def __init__(self, s):
+        self.s = s
+
+
+def design_drift(cases, log, limit):
+    """replay the recorded forward executions against the machine of Forward.tla (row by row)"""
+    fwd = [{"id": c["id"], "I": c["I"], "R": {"out": c["R"]["out"], "start": c["R"]["start"], "end": c["R"]["end"],
+                                              "rows": c["R"]["rows"]}}
+           for c in cases if c["I"]["dir"] == "fwd" and c["R"]["out"] in ("ok", "RuntimeError") and not c["R"]["overflow"]]
+    fwd = fwd[:limit]
+    if not fwd:
+        return {"replayed": 0}
+    jobs = 6
+    per = max(50, min(1500, -(-len(fwd) // jobs)))
+    batches = [fwd[i:i + per] for i in range(0, len(fwd), per)]
+    wd, mod = tlc.prepare_judge("ForwardTrace", {"HORIZON": 400}, "fwt")
+    import shutil
+    from concurrent.futures import ThreadPoolExecutor
+    kinds, states, ex = {}, 0, []
+    try:
+        def one(i):
+            import json, os
+            bdir = os.path.join(wd, "b%d" % i)
+            os.makedirs(bdir)
+            tf = os.path.join(bdir, "trace.json")
+            with open(tf, "w") as fh:
+                json.dump(batches[i], fh, separators=(",", ":"))
+            for f in os.listdir(wd):
+                if f.endswith((".tla", ".cfg")):
+                    os.symlink(os.path.join(wd, f), os.path.join(bdir, f))
+            out, wall, rc = tlc.run_tlc(bdir, mod, mod + ".cfg", env={"TRACE_FILE": tf}, workers=1, timeout=1800,
+                                        heap="1g")
+            return out, rc
+        with ThreadPoolExecutor(max_workers=jobs) as pool:
+            res = list(pool.map(one, range(len(batches))))
+        for out, rc in res:
+            if rc != 0 or not list(tlc.tuples(out, "JUDGED")):
+                log("design replay: TLC did not finish a batch (informational run, ignored)")
+                return {"replayed": 0, "error": out[-400:]}
+            st = tlc.parse_stats(out)
+            states += st["distinct"] if st else 0
+            for t in tlc.tuples(out, "DRIFT"):
+                what = t[2] if isinstance(t[2], str) else t[2][0]
+                kinds[what] = kinds.get(what, 0) + 1
+                if len(ex) < 5:
+                    ex.append({"case": t[1], "what": t[2]})
+    finally:
+        shutil.rmtree(wd, ignore_errors=True)
+    log("design replay (Forward.tla): %d forward executions replayed step by step, %d machine states, drift %s"
+        % (len(fwd), states, kinds or "none"))
+    return {"replayed": len(fwd), "machine_states": states, "drift": kinds, "examples": ex}
 
 
 def tags_of(case, clause, detail):
@@ -709,15 +802,21 @@ CLAUSES = {
 def evidence(prop, res):
     cov = res["coverage"]
     coverage = {
-        "states": cov["judge_states"], "transitions": cov["judge_states"],
+        "states": cov["judge_states"] + ((cov.get("mc") or {}).get("states") or 0),
+        "transitions": cov["judge_states"] + ((cov.get("mc") or {}).get("transitions") or 0),
         "traces_validated_against_impl": cov["cases"],
         "evaluations": cov["cases"], "distinct_nontrivial": cov["nontrivial"],
+        "design_model": {"module": "spec/MC_Forward.tla (Forward.tla)", "result": cov.get("mc"),
+                         "checked": "termination (liveness under WF), at most one successor per state, "
+                                    "out=ok => every forward clause of Sched.tla, out=ok => schedulable, "
+                                    "out=fail => a reason exists"},
         "rule": "every ordered forest shape of <= 3 (quick) / 4 (thorough) tasks with seeded link placements, "
                 "attributes, resources and calendars, both schedulers, plus seeded random inputs of up to 8-10 "
                 "tasks; non-trivial = at least 2 tasks and (a dependency link or a shared resource); inputs are "
                 "distinct draws of a seeded generator",
         "samples": cov["samples"][:2], "exhaustive": False, "outcomes": cov["outcomes"],
         "ledger_rows_replayed": cov["rows"], "forward": cov["fwd"], "backward": cov["bwd"],
+        "design_conformance": cov.get("drift"),
         "clauses": CLAUSES[prop],
         "checker_cmd": "tlc SchedTrace.tla (clauses of Sched.tla on every recorded calc execution)",
     }
